@@ -49,6 +49,8 @@ structure SideInv (cap : Nat) (cpt : Bool) (pb : Bytes) (d : Side) : Prop where
   eofEmpty : d.rd = .eof → d.pipe = []
   /-- uncaptured: nothing in the (non-existent) pipe or buffer -/
   absentEmpty : d.rd = .absent → d.pipe = [] ∧ d.acc = []
+  /-- the child closes its end of a stream only after its last byte to it -/
+  closedDone : d.wopen = false → d.pending = []
 
 /-- Why the main thread is on the error path with `e`. -/
 def ErrOk (cfg : Cfg) (s : State) : Err → Prop
@@ -85,7 +87,7 @@ def PcInv (cfg : Cfg) (plan : Plan) (s : State) : Prop :=
   | .reap e => s.child.isZombie = true ∧ ErrOk cfg s e
   | .eJoinWr e | .eJoinOut e | .eJoinErr e => s.child.isReaped = true ∧ ErrOk cfg s e
   | .joinWr st => SelfEnded s st
-  | .preJoinWr => False
+  | .preJoinWr | .drainFlag _ | .blockWait => False
   | .joinOut st => SelfEnded s st
   | .flagOut st => SelfEnded s st ∧ s.o.joined = true ∧ s.o.rd ≠ .absent
   | .joinErr st ro => SelfEnded s st ∧ s.o.joined = true ∧ s.flag ≠ 1 ∧ OutRes s ro
@@ -100,8 +102,8 @@ structure Inv (cfg : Cfg) (plan : Plan) (s : State) : Prop where
   flag1 : s.flag = 1 → s.o.rd = .ovf
   flag2 : s.flag = 2 → s.e.rd = .ovf
   ovfFlag : s.o.rd = .ovf ∨ s.e.rd = .ovf → s.flag ≠ 0
-  /-- a reader has seen EOF only after the child was gone -/
-  eofDead : s.o.rd = .eof ∨ s.e.rd = .eof → s.child.isAlive = false
+  /-- a reader has seen EOF only after the child was gone **or had closed its end of that stream** -/
+  eofDead : ∀ x, (s.side x).rd = .eof → s.child.isAlive = false ∨ (s.side x).wopen = false
   /-- a child that ended as planned had written everything -/
   causePlan : s.child.cause? = some .plan →
       s.o.pending = [] ∧ s.e.pending = [] ∧ plan.ending.status = s.child.st?
@@ -121,75 +123,90 @@ macro "side_close" : tactic =>
 
 theorem SideInv.write {cap cpt pb d d' pipeCap n} (h : SideInv cap cpt pb d)
     (hs : Side.write pipeCap d n = some d') :
-    SideInv cap cpt pb d' ∧ d'.rd = d.rd ∧ d'.acc = d.acc := by
-  obtain ⟨pending, written, pipe, acc, rd⟩ := d
-  obtain ⟨h1, h2, h3, h4, h5, h6, h7⟩ := h
+    SideInv cap cpt pb d' ∧ d'.rd = d.rd ∧ d'.acc = d.acc ∧ d'.wopen = d.wopen ∧ d.rd ≠ .eof := by
+  obtain ⟨pending, written, pipe, acc, rd, wopen⟩ := d
+  obtain ⟨h1, h2, h3, h4, h5, h6, h7, h8⟩ := h
   simp only [Side.write] at hs
   split at hs
   · cases hs
   · next hn =>
-    have hn' : n ≤ pending.length := by simp at hn; omega
+    have hn' : n ≤ pending.length ∧ wopen = true := by
+      simp at hn; exact ⟨by omega, hn.2.2⟩
     cases rd <;> simp at hs
     · subst hs
-      refine ⟨⟨?_, ?_, ?_, ?_, ?_, ?_, ?_⟩, rfl, rfl⟩ <;> simp_all [Rd.inHand]
+      refine ⟨⟨?_, ?_, ?_, ?_, ?_, ?_, ?_, ?_⟩, rfl, rfl, rfl, by simp⟩ <;> simp_all [Rd.inHand]
     · obtain ⟨_, rfl⟩ := hs
-      refine ⟨⟨?_, ?_, ?_, ?_, ?_, ?_, ?_⟩, rfl, rfl⟩ <;> simp_all [Rd.inHand] <;> side_close
+      refine ⟨⟨?_, ?_, ?_, ?_, ?_, ?_, ?_, ?_⟩, rfl, rfl, rfl, by simp⟩ <;> simp_all [Rd.inHand] <;> side_close
     · obtain ⟨_, rfl⟩ := hs
-      refine ⟨⟨?_, ?_, ?_, ?_, ?_, ?_, ?_⟩, rfl, rfl⟩ <;> simp_all [Rd.inHand] <;> side_close
+      refine ⟨⟨?_, ?_, ?_, ?_, ?_, ?_, ?_, ?_⟩, rfl, rfl, rfl, by simp⟩ <;> simp_all [Rd.inHand] <;> side_close
 
 theorem SideInv.drop {cap cpt pb d d' n} (h : SideInv cap cpt pb d)
     (hs : Side.drop d n = some d') :
     SideInv cap cpt pb d' ∧ d'.rd = d.rd ∧ d'.acc = d.acc ∧ d'.written = d.written ∧ d.closed = true := by
-  obtain ⟨pending, written, pipe, acc, rd⟩ := d
-  obtain ⟨h1, h2, h3, h4, h5, h6, h7⟩ := h
+  obtain ⟨pending, written, pipe, acc, rd, wopen⟩ := d
+  obtain ⟨h1, h2, h3, h4, h5, h6, h7, h8⟩ := h
   simp only [Side.drop] at hs
   split at hs
   · cases hs
   · cases rd <;> simp at hs
     all_goals
       subst hs
-      refine ⟨⟨?_, ?_, ?_, ?_, ?_, ?_, ?_⟩, rfl, rfl, rfl, rfl⟩ <;> simp_all [Rd.inHand]
+      refine ⟨⟨?_, ?_, ?_, ?_, ?_, ?_, ?_, ?_⟩, rfl, rfl, rfl, rfl⟩ <;> simp_all [Rd.inHand]
 
 theorem SideInv.read {cap cpt pb d d' chunk} (h : SideInv cap cpt pb d)
     (hs : Side.read chunk d = some d') :
     SideInv cap cpt pb d' ∧ d.rd = .idle ∧ (∃ c, d'.rd = .got c) ∧ d'.acc = d.acc ∧
       d'.written = d.written ∧ d'.pending = d.pending := by
-  obtain ⟨pending, written, pipe, acc, rd⟩ := d
-  obtain ⟨h1, h2, h3, h4, h5, h6, h7⟩ := h
+  obtain ⟨pending, written, pipe, acc, rd, wopen⟩ := d
+  obtain ⟨h1, h2, h3, h4, h5, h6, h7, h8⟩ := h
   simp only [Side.read] at hs
   cases rd <;> simp at hs
   obtain ⟨_, rfl⟩ := hs
-  refine ⟨⟨?_, ?_, ?_, ?_, ?_, ?_, ?_⟩, rfl, ⟨_, rfl⟩, rfl, rfl, rfl⟩ <;> simp_all [Rd.inHand]
+  refine ⟨⟨?_, ?_, ?_, ?_, ?_, ?_, ?_, ?_⟩, rfl, ⟨_, rfl⟩, rfl, rfl, rfl⟩ <;> simp_all [Rd.inHand]
 
 theorem SideInv.eof {cap cpt pb d d' alive} (h : SideInv cap cpt pb d)
     (hs : Side.eof alive d = some d') :
-    SideInv cap cpt pb d' ∧ d.rd = .idle ∧ d'.rd = .eof ∧ alive = false ∧ d'.acc = d.acc ∧
-      d'.written = d.written ∧ d'.pending = d.pending := by
-  obtain ⟨pending, written, pipe, acc, rd⟩ := d
-  obtain ⟨h1, h2, h3, h4, h5, h6, h7⟩ := h
+    SideInv cap cpt pb d' ∧ d.rd = .idle ∧ d'.rd = .eof ∧ (alive = false ∨ d'.wopen = false) ∧
+      d'.acc = d.acc ∧ d'.written = d.written ∧ d'.pending = d.pending := by
+  obtain ⟨pending, written, pipe, acc, rd, wopen⟩ := d
+  obtain ⟨h1, h2, h3, h4, h5, h6, h7, h8⟩ := h
   simp only [Side.eof] at hs
   cases rd <;> simp at hs
   obtain ⟨⟨hp, ha⟩, rfl⟩ := hs
-  refine ⟨⟨?_, ?_, ?_, ?_, ?_, ?_, ?_⟩, rfl, rfl, ha, rfl, rfl, rfl⟩ <;> simp_all [Rd.inHand]
+  refine ⟨⟨?_, ?_, ?_, ?_, ?_, ?_, ?_, ?_⟩, rfl, rfl, ha, rfl, rfl, rfl⟩ <;> simp_all [Rd.inHand]
 
 theorem SideInv.fail {cap cpt pb d d'} (h : SideInv cap cpt pb d)
     (hs : Side.fail d = some d') :
     SideInv cap cpt pb d' ∧ d.rd = .idle ∧ d'.rd = .failed ∧ d'.acc = d.acc ∧
       d'.written = d.written ∧ d'.pending = d.pending := by
-  obtain ⟨pending, written, pipe, acc, rd⟩ := d
-  obtain ⟨h1, h2, h3, h4, h5, h6, h7⟩ := h
+  obtain ⟨pending, written, pipe, acc, rd, wopen⟩ := d
+  obtain ⟨h1, h2, h3, h4, h5, h6, h7, h8⟩ := h
   simp only [Side.fail] at hs
   cases rd <;> simp at hs
   subst hs
-  refine ⟨⟨?_, ?_, ?_, ?_, ?_, ?_, ?_⟩, rfl, rfl, rfl, rfl, rfl⟩ <;> simp_all [Rd.inHand]
+  refine ⟨⟨?_, ?_, ?_, ?_, ?_, ?_, ?_, ?_⟩, rfl, rfl, rfl, rfl, rfl⟩ <;> simp_all [Rd.inHand]
+
+/-- The child closes its end of the stream: nothing but `wopen` changes. -/
+theorem SideInv.close {cap cpt pb d d'} (h : SideInv cap cpt pb d)
+    (hs : Side.close d = some d') :
+    SideInv cap cpt pb d' ∧ d'.rd = d.rd ∧ d'.acc = d.acc ∧ d'.written = d.written ∧
+      d'.pending = d.pending ∧ d'.pipe = d.pipe ∧ d'.wopen = false := by
+  obtain ⟨pending, written, pipe, acc, rd, wopen⟩ := d
+  obtain ⟨h1, h2, h3, h4, h5, h6, h7, h8⟩ := h
+  simp only [Side.close] at hs
+  split at hs
+  · next hc =>
+    cases hs
+    exact ⟨⟨h1, h2, h3, h4, h5, h6, h7, fun _ => hc.2⟩, rfl, rfl, rfl, rfl, rfl, rfl⟩
+  · cases hs
 
 theorem SideInv.check {cap cpt pb d d' my flag flag'} (h : SideInv cap cpt pb d)
     (hs : Side.check cap my flag d = some (d', flag')) :
     SideInv cap cpt pb d' ∧ (∃ c, d.rd = .got c) ∧ d'.written = d.written ∧ d'.pending = d.pending ∧
       ((d'.rd = .ovf ∧ flag' = (if flag = 0 then my else flag) ∧ d'.acc = d.acc) ∨
        (d'.rd = .idle ∧ flag' = flag)) := by
-  obtain ⟨pending, written, pipe, acc, rd⟩ := d
-  obtain ⟨h1, h2, h3, h4, h5, h6, h7⟩ := h
+  obtain ⟨pending, written, pipe, acc, rd, wopen⟩ := d
+  obtain ⟨h1, h2, h3, h4, h5, h6, h7, h8⟩ := h
   simp only [Side.check] at hs
   cases rd <;> simp at hs
   next c =>
@@ -197,14 +214,14 @@ theorem SideInv.check {cap cpt pb d d' my flag flag'} (h : SideInv cap cpt pb d)
   · next hov =>
     simp at hs
     obtain ⟨rfl, rfl⟩ := hs
-    refine ⟨⟨?_, ?_, ?_, ?_, ?_, ?_, ?_⟩, ⟨_, rfl⟩, rfl, rfl, Or.inl ⟨rfl, rfl, rfl⟩⟩ <;> simp_all [Rd.inHand]
+    refine ⟨⟨?_, ?_, ?_, ?_, ?_, ?_, ?_, ?_⟩, ⟨_, rfl⟩, rfl, rfl, Or.inl ⟨rfl, rfl, rfl⟩⟩ <;> simp_all [Rd.inHand]
     subst_vars
     refine ⟨⟨c ++ (pipe ++ pending), by simp [List.append_assoc]⟩, ?_⟩
     simp; omega
   · next hov =>
     simp at hs
     obtain ⟨rfl, rfl⟩ := hs
-    refine ⟨⟨?_, ?_, ?_, ?_, ?_, ?_, ?_⟩, ⟨_, rfl⟩, rfl, rfl, Or.inr ⟨rfl, rfl⟩⟩ <;> simp_all [Rd.inHand] <;> side_close
+    refine ⟨⟨?_, ?_, ?_, ?_, ?_, ?_, ?_, ?_⟩, ⟨_, rfl⟩, rfl, rfl, Or.inr ⟨rfl, rfl⟩⟩ <;> simp_all [Rd.inHand] <;> side_close
 
 /-! ## Frame lemmas for the main thread's invariant -/
 
@@ -363,7 +380,7 @@ theorem Inv.rdRead_out {cfg plan} {s s' : State} (h : Inv cfg plan s)
   refine ⟨hi, h.se, h.flagRange, ?_, h.flag2, ?_, ?_, ?_, h.causeSig' rfl (fun h => h) (by intro hf; simp_all) (by intro hf; simp_all), ?_⟩
   · intro h1; have := h.flag1 h1; simp_all
   · have := h.ovfFlag; simp_all
-  · have := h.eofDead; simp_all
+  · intro x hx; have := h.eofDead x; cases x <;> simp_all
   · have := h.causePlan; simp_all
   · exact h.pcInv.frame rfl rfl (Nat.le_refl _) (Or.inl rfl) (Or.inr ⟨hnj, hw⟩) (Or.inl rfl) (fun h => h)
 
@@ -376,7 +393,7 @@ theorem Inv.rdRead_err {cfg plan} {s s' : State} (h : Inv cfg plan s)
   refine ⟨h.so, hi, h.flagRange, h.flag1, ?_, ?_, ?_, ?_, h.causeSig' rfl (fun h => h) (by intro hf; simp_all) (by intro hf; simp_all), ?_⟩
   · intro h1; have := h.flag2 h1; simp_all
   · have := h.ovfFlag; simp_all
-  · have := h.eofDead; simp_all
+  · intro x hx; have := h.eofDead x; cases x <;> simp_all
   · have := h.causePlan; simp_all
   · exact h.pcInv.frame rfl rfl (Nat.le_refl _) (Or.inl rfl) (Or.inl rfl) (Or.inr ⟨hnj, hw⟩) (fun h => h)
 
@@ -389,7 +406,7 @@ theorem Inv.rdEof_out {cfg plan} {s s' : State} (h : Inv cfg plan s)
   refine ⟨hi, h.se, h.flagRange, ?_, h.flag2, ?_, ?_, ?_, h.causeSig' rfl (fun h => h) (by intro hf; simp_all) (by intro hf; simp_all), ?_⟩
   · intro h1; have := h.flag1 h1; simp_all
   · have := h.ovfFlag; simp_all
-  · have := h.eofDead; simp_all
+  · intro x hx; have := h.eofDead x; cases x <;> simp_all
   · have := h.causePlan; simp_all
   · exact h.pcInv.frame rfl rfl (Nat.le_refl _) (Or.inl rfl) (Or.inr ⟨hnj, hw⟩) (Or.inl rfl) (fun h => h)
 
@@ -402,7 +419,7 @@ theorem Inv.rdEof_err {cfg plan} {s s' : State} (h : Inv cfg plan s)
   refine ⟨h.so, hi, h.flagRange, h.flag1, ?_, ?_, ?_, ?_, h.causeSig' rfl (fun h => h) (by intro hf; simp_all) (by intro hf; simp_all), ?_⟩
   · intro h1; have := h.flag2 h1; simp_all
   · have := h.ovfFlag; simp_all
-  · have := h.eofDead; simp_all
+  · intro x hx; have := h.eofDead x; cases x <;> simp_all
   · have := h.causePlan; simp_all
   · exact h.pcInv.frame rfl rfl (Nat.le_refl _) (Or.inl rfl) (Or.inl rfl) (Or.inr ⟨hnj, hw⟩) (fun h => h)
 
@@ -415,7 +432,7 @@ theorem Inv.rdFail_out {cfg plan} {s s' : State} (h : Inv cfg plan s)
   refine ⟨hi, h.se, h.flagRange, ?_, h.flag2, ?_, ?_, ?_, h.causeSig' rfl (fun h => h) (by intro hf; simp_all) (by intro hf; simp_all), ?_⟩
   · intro h1; have := h.flag1 h1; simp_all
   · have := h.ovfFlag; simp_all
-  · have := h.eofDead; simp_all
+  · intro x hx; have := h.eofDead x; cases x <;> simp_all
   · have := h.causePlan; simp_all
   · exact h.pcInv.frame rfl rfl (Nat.le_refl _) (Or.inl rfl) (Or.inr ⟨hnj, hw⟩) (Or.inl rfl) (fun h => h)
 
@@ -428,7 +445,7 @@ theorem Inv.rdFail_err {cfg plan} {s s' : State} (h : Inv cfg plan s)
   refine ⟨h.so, hi, h.flagRange, h.flag1, ?_, ?_, ?_, ?_, h.causeSig' rfl (fun h => h) (by intro hf; simp_all) (by intro hf; simp_all), ?_⟩
   · intro h1; have := h.flag2 h1; simp_all
   · have := h.ovfFlag; simp_all
-  · have := h.eofDead; simp_all
+  · intro x hx; have := h.eofDead x; cases x <;> simp_all
   · have := h.causePlan; simp_all
   · exact h.pcInv.frame rfl rfl (Nat.le_refl _) (Or.inl rfl) (Or.inl rfl) (Or.inr ⟨hnj, hw⟩) (fun h => h)
 
@@ -452,7 +469,7 @@ theorem Inv.rdCheck_out {cfg plan} {s s' : State} (h : Inv cfg plan s)
     · intro _; exact hovf
     · simp only [setSide_out]; rw [hfl]; split <;> simp_all [code]
     · simp only [setSide_out]; rw [hfl]; intro _; split <;> simp_all [code]
-    · simp_all
+    · intro x hx; have := hed x; cases x <;> simp_all
     · simp_all
     · simp only [setSide_out]; rw [hfl]; intro hc; have := hcs hc; split <;> simp_all [code]
     · refine h.pcInv.frame rfl rfl (Nat.le_refl _) ?_ (Or.inr ⟨hnj, hw⟩) (Or.inl rfl) (fun h => h)
@@ -464,7 +481,7 @@ theorem Inv.rdCheck_out {cfg plan} {s s' : State} (h : Inv cfg plan s)
     refine ⟨hi, h.se, hfr, ?_, hf2, ?_, ?_, ?_, h.causeSig' rfl (fun h => h) (by intro hf; simp_all) (by intro hf; simp_all), ?_⟩
     · intro h1; have := hf1 h1; simp_all
     · simp_all
-    · simp_all
+    · intro x hx; have := hed x; cases x <;> simp_all
     · simp_all
     · exact h.pcInv.frame rfl rfl (Nat.le_refl _) (Or.inl rfl) (Or.inr ⟨hnj, hw⟩) (Or.inl rfl) (fun h => h)
 
@@ -488,7 +505,7 @@ theorem Inv.rdCheck_err {cfg plan} {s s' : State} (h : Inv cfg plan s)
     · simp only [setSide_err]; rw [hfl]; split <;> simp_all [code]
     · intro _; exact hovf
     · simp only [setSide_err]; rw [hfl]; intro _; split <;> simp_all [code]
-    · simp_all
+    · intro x hx; have := hed x; cases x <;> simp_all
     · simp_all
     · simp only [setSide_err]; rw [hfl]; intro hc; have := hcs hc; split <;> simp_all [code]
     · refine h.pcInv.frame rfl rfl (Nat.le_refl _) ?_ (Or.inl rfl) (Or.inr ⟨hnj, hw⟩) (fun h => h)
@@ -500,7 +517,7 @@ theorem Inv.rdCheck_err {cfg plan} {s s' : State} (h : Inv cfg plan s)
     refine ⟨h.so, hi, hfr, hf1, ?_, ?_, ?_, ?_, h.causeSig' rfl (fun h => h) (by intro hf; simp_all) (by intro hf; simp_all), ?_⟩
     · intro h1; have := hf2 h1; simp_all
     · simp_all
-    · simp_all
+    · intro x hx; have := hed x; cases x <;> simp_all
     · simp_all
     · exact h.pcInv.frame rfl rfl (Nat.le_refl _) (Or.inl rfl) (Or.inl rfl) (Or.inr ⟨hnj, hw⟩) (fun h => h)
 
@@ -515,14 +532,14 @@ theorem Inv.childWrite_out {cfg plan n} {s s' : State} (h : Inv cfg plan s)
     rw [Child.isAlive_iff] at ha
     simp only [Option.map_eq_some_iff] at hs
     obtain ⟨d', hd, rfl⟩ := hs
-    obtain ⟨hi, hrd, hacc⟩ := h.so.write hd
+    obtain ⟨hi, hrd, hacc, hwo, hneof⟩ := h.so.write hd
     have hf1 := h.flag1
     have hof := h.ovfFlag
     have hed := h.eofDead
     refine ⟨hi, h.se, h.flagRange, ?_, h.flag2, ?_, ?_, ?_, ?_, ?_⟩
     · simp_all
     · simp_all
-    · simp_all
+    · intro x hx; have := hed x; cases x <;> simp_all [Side.closed]
     · simp [ha, Child.cause?]
     · simp [ha, Child.cause?]
     · exact h.pcInv.childStep ha rfl rfl rfl (by simp [ha, Child.isReaped, Child.cause?])
@@ -536,14 +553,14 @@ theorem Inv.childWrite_err {cfg plan n} {s s' : State} (h : Inv cfg plan s)
     rw [Child.isAlive_iff] at ha
     simp only [Option.map_eq_some_iff] at hs
     obtain ⟨d', hd, rfl⟩ := hs
-    obtain ⟨hi, hrd, hacc⟩ := h.se.write hd
+    obtain ⟨hi, hrd, hacc, hwo, hneof⟩ := h.se.write hd
     have hf2 := h.flag2
     have hof := h.ovfFlag
     have hed := h.eofDead
     refine ⟨h.so, hi, h.flagRange, h.flag1, ?_, ?_, ?_, ?_, ?_, ?_⟩
     · simp_all
     · simp_all
-    · simp_all
+    · intro x hx; have := hed x; cases x <;> simp_all [Side.closed]
     · simp [ha, Child.cause?]
     · simp [ha, Child.cause?]
     · exact h.pcInv.childStep ha rfl rfl rfl (by simp [ha, Child.isReaped, Child.cause?])
@@ -564,7 +581,7 @@ theorem Inv.childDrop_out {cfg plan n} {s s' : State} (h : Inv cfg plan s)
     refine ⟨hi, h.se, h.flagRange, ?_, h.flag2, ?_, ?_, ?_, ?_, ?_⟩
     · simp_all
     · simp_all
-    · simp_all
+    · intro x hx; have := hed x; cases x <;> simp_all [Side.closed]
     · simp [ha, Child.cause?]
     · simp [ha, Child.cause?]
     · exact h.pcInv.childStep ha rfl rfl rfl (by simp [ha, Child.isReaped, Child.cause?])
@@ -585,7 +602,7 @@ theorem Inv.childDrop_err {cfg plan n} {s s' : State} (h : Inv cfg plan s)
     refine ⟨h.so, hi, h.flagRange, h.flag1, ?_, ?_, ?_, ?_, ?_, ?_⟩
     · simp_all
     · simp_all
-    · simp_all
+    · intro x hx; have := hed x; cases x <;> simp_all [Side.closed]
     · simp [ha, Child.cause?]
     · simp [ha, Child.cause?]
     · exact h.pcInv.childStep ha rfl rfl rfl (by simp [ha, Child.isReaped, Child.cause?])
@@ -607,7 +624,7 @@ theorem Inv.childSigpipe {cfg plan x} {s s' : State} (h : Inv cfg plan s)
       · simp only [side_err, Side.closed] at hovf
         cases hrd : s.e.rd <;> simp_all
     refine ⟨h.so, h.se, h.flagRange, h.flag1, h.flag2, h.ovfFlag, ?_, ?_, ?_, ?_⟩
-    · intro _; rfl
+    · intro _ _; exact Or.inl rfl
     · simp [Child.cause?]
     · intro _; exact ⟨hflag, hdies⟩
     · exact h.pcInv.childStep ha rfl rfl rfl (by simp [Child.isReaped, Child.cause?])
@@ -624,11 +641,51 @@ theorem Inv.childEnd {cfg plan} {s s' : State} (h : Inv cfg plan s)
     · next st hst =>
       cases hs
       refine ⟨h.so, h.se, h.flagRange, h.flag1, h.flag2, h.ovfFlag, ?_, ?_, ?_, ?_⟩
-      · intro _; rfl
+      · intro _ _; exact Or.inl rfl
       · intro _; exact ⟨hpo, hpe, by simp [Child.st?, hst]⟩
       · simp [Child.cause?]
       · exact h.pcInv.childStep ha rfl rfl rfl (by simp [Child.isReaped, Child.cause?])
     · cases hs
+  · cases hs
+
+/-- The child closes its end of a stream and lives on: only `wopen` of that side changes. -/
+theorem Inv.childClose {cfg plan x} {s s' : State} (h : Inv cfg plan s)
+    (hs : step cfg plan s (.childClose x) = some s') : Inv cfg plan s' := by
+  simp only [step] at hs
+  split at hs
+  · next ha =>
+    rw [Child.isAlive_iff] at ha
+    simp only [Option.map_eq_some_iff] at hs
+    obtain ⟨d', hd, rfl⟩ := hs
+    have hf1 := h.flag1
+    have hf2 := h.flag2
+    have hof := h.ovfFlag
+    have hed := h.eofDead
+    cases x with
+    | out =>
+      obtain ⟨hi, hrd, hacc, hw, hp, hpipe, hwo⟩ := h.so.close hd
+      refine ⟨hi, h.se, h.flagRange, ?_, h.flag2, ?_, ?_, ?_, ?_, ?_⟩
+      · simp_all
+      · simp_all
+      · intro y hy
+        cases y
+        · exact Or.inr hwo
+        · exact hed .err hy
+      · simp [ha, Child.cause?]
+      · simp [ha, Child.cause?]
+      · exact h.pcInv.childStep ha rfl rfl rfl (by simp [ha, Child.isReaped, Child.cause?])
+    | err =>
+      obtain ⟨hi, hrd, hacc, hw, hp, hpipe, hwo⟩ := h.se.close hd
+      refine ⟨h.so, hi, h.flagRange, h.flag1, ?_, ?_, ?_, ?_, ?_, ?_⟩
+      · simp_all
+      · simp_all
+      · intro y hy
+        cases y
+        · exact hed .out hy
+        · exact Or.inr hwo
+      · simp [ha, Child.cause?]
+      · simp [ha, Child.cause?]
+      · exact h.pcInv.childStep ha rfl rfl rfl (by simp [ha, Child.isReaped, Child.cause?])
   · cases hs
 
 theorem Inv.tick {cfg plan} {s s' : State} (h : Inv cfg plan s)
@@ -688,7 +745,7 @@ theorem Inv.withChildPc {cfg plan} {s : State} (h : Inv cfg plan s) (c' : Child)
     (hcause : (c'.cause? = s.child.cause? ∧ c'.st? = s.child.st?) ∨ c'.cause? = some .killed)
     (hp : PcInv cfg plan { s with child := c', pc := p }) :
     Inv cfg plan { s with child := c', pc := p } := by
-  refine ⟨h.so, h.se, h.flagRange, h.flag1, h.flag2, h.ovfFlag, fun _ => hal, ?_, ?_, hp⟩
+  refine ⟨h.so, h.se, h.flagRange, h.flag1, h.flag2, h.ovfFlag, fun _ _ => Or.inl hal, ?_, ?_, hp⟩
   · intro hc
     rcases hcause with ⟨h1, h2⟩ | h1
     · simp only at hc ⊢; rw [h2]; exact h.causePlan (h1 ▸ hc)
@@ -1160,6 +1217,8 @@ theorem Inv.main {cfg plan} {s s' : State} (h : Inv cfg plan s)
   | eJoinErr e => exact h.main_eJoinErr hs hpc
   | joinWr st => exact h.main_joinWr hs hpc
   | preJoinWr => simp [stepMain, hpc] at hs
+  | drainFlag w => simp [stepMain, hpc] at hs
+  | blockWait => simp [stepMain, hpc] at hs
   | joinOut st => exact h.main_joinOut hs hpc
   | flagOut st => exact h.main_flagOut hs hpc
   | joinErr st ro => exact h.main_joinErr hs hpc
@@ -1217,7 +1276,7 @@ theorem Inv.init (cfg : Cfg) (plan : Plan) : Inv cfg plan (init cfg plan) := by
   · simp [Capture.init]
   · simp [Capture.init]
   · simp only [Capture.init, Side.init]; intro h; rcases h with h | h <;> split at h <;> cases h
-  · simp only [Capture.init, Side.init]; intro h; rcases h with h | h <;> split at h <;> cases h
+  · intro x h; cases x <;> simp only [Capture.init, Side.init, State.side] at h <;> split at h <;> cases h
   · simp [Capture.init, Child.cause?]
   · simp [Capture.init, Child.cause?]
   · simp [PcInv, Capture.init, Child.isReaped, Child.cause?]
@@ -1229,6 +1288,7 @@ theorem Inv.step {cfg plan} {s s' : State} {l : Label} (h : Inv cfg plan s)
   | childDrop x n => cases x; exact h.childDrop_out hs; exact h.childDrop_err hs
   | childSigpipe x => exact h.childSigpipe hs
   | childEnd => exact h.childEnd hs
+  | childClose x => exact h.childClose hs
   | rdRead x => cases x; exact h.rdRead_out hs; exact h.rdRead_err hs
   | rdCheck x => cases x; exact h.rdCheck_out hs; exact h.rdCheck_err hs
   | rdEof x => cases x; exact h.rdEof_out hs; exact h.rdEof_err hs
